@@ -70,7 +70,7 @@ Case decode(const std::string& text) {
         else if (t[0] == "readmask" && t.size() >= 2)
             c.readmask = (unsigned)vf::unhex(t[1]) & 7;
         else if (t[0] == "polls" && t.size() >= 2)
-            c.polls = (unsigned)vf::unhex(t[1]) & 63;
+            c.polls = (unsigned)vf::unhex(t[1]) & 127;
         else if (t[0] == "dismask" && t.size() >= 2)
             c.dismask = (unsigned)vf::unhex(t[1]) & 7;
         else if (t[0] == "slices")
@@ -155,6 +155,12 @@ void load_program(Teakra::Teakra& t, unsigned readmask, bool dsp_polls, bool ctx
     h.push_back(ctx_switch ? W("retic(CondValue)", {0}) : W("reti(CondValue)", {0}));
     for (size_t i = 0; i < h.size(); ++i)
         t.ProgramWrite(hbase + (uint32_t)i, h[i]);
+    // int1 vector -> a second, unrelated service routine (timer 0, when the schedule arms it): acknowledge IRQ 10 and return
+    t.ProgramWrite(0x000E, W("br(Address18_16,Address18_2,CondValue)", {-1, 0, 0}));
+    t.ProgramWrite(0x000F, 0x0300);
+    const uint16_t th[] = {W("mov(Imm16,Register)", {-1, 26}), 0x0400, W("mov(Axl,MemImm16)", {0, -1}), 0x8202, W("reti(CondValue)", {0})};
+    for (size_t i = 0; i < 5; ++i)
+        t.ProgramWrite(0x0300 + (uint32_t)i, th[i]);
 }
 
 // Deadlock watchdog. A case normally takes a fraction of a second; one that has not finished after kWatchdogSeconds is stuck
@@ -211,6 +217,15 @@ vf::Result check(const Case& c) {
         t.MMIOWrite(0x206, 0x4000); // IRQ 14 (APBP) -> int0
         regs.im[0] = 1;
         regs.ic[0] = (c.polls & 4) ? 1 : 0; // the service routine runs in the other register context and returns with retic
+    }
+    if (c.polls & 64) {
+        // competing fixed-priority source: timer 0 in auto-restart mode with a short period on int1. Its requests coincide with
+        // mailbox requests at instruction boundaries; each must still be delivered
+        t.MMIOWrite(0x208, 0x0400); // IRQ 10 (timer 0) -> int1
+        regs.im[1] = 1;
+        t.MMIOWrite(0x24, (uint16_t)(7 + (c.dismask + c.readmask) % 9));
+        t.MMIOWrite(0x26, 0);
+        t.MMIOWrite(0x20, 0x0404); // auto-restart, restart now
     }
     regs.pc = 0x0100;
     regs.sp = 0x1800;
@@ -451,6 +466,8 @@ vf::Result check(const Case& c) {
         vf::klass("main program leaves repc != 0");
     if (c.polls & 16)
         vf::klass("service routine saves and restores st2");
+    if (c.polls & 64)
+        vf::klass("a timer interrupt on int1 competes with the mailbox requests");
     if (c.polls & 32)
         vf::klass("request routed to the vectored line, handler above 0x10000");
     if (c.dismask)
@@ -486,7 +503,7 @@ int main(int argc, char** argv) {
         using namespace rc;
         return gen::map(gen::tuple(gen::container<std::vector<Op>>(genOp()), gen::container<std::vector<unsigned>>(gen::element<unsigned>(1, 1, 2, 3, 7, 16, 64, 200, 1000)),
                                    vf::range<unsigned>(0, 16), gen::weightedOneOf<unsigned>({{1, gen::just(7u)}, {1, vf::range<unsigned>(0, 8)}}),
-                                   vf::range<unsigned>(0, 64), gen::weightedOneOf<unsigned>({{2, gen::just(0u)}, {1, vf::range<unsigned>(1, 7)}})),
+                                   vf::range<unsigned>(0, 128), gen::weightedOneOf<unsigned>({{2, gen::just(0u)}, {1, vf::range<unsigned>(1, 7)}})),
                         [](std::tuple<std::vector<Op>, std::vector<unsigned>, unsigned, unsigned, unsigned, unsigned> t) {
                             Case c;
                             c.ops = std::get<0>(t);
@@ -499,7 +516,7 @@ int main(int argc, char** argv) {
                             c.slices = std::get<1>(t);
                             c.reenter = std::get<2>(t);
                             c.readmask = std::get<3>(t) & 7;
-                            c.polls = std::get<4>(t) & 63;
+                            c.polls = std::get<4>(t) & 127;
                             c.dismask = std::get<5>(t) & 7;
                             return c;
                         });
